@@ -132,7 +132,7 @@ func genLattice(g *Rng, idx uint64) *Plan {
 		spec.NSDecls = winNSDecls(g, x)
 	}
 	if g.Bool(0.1) {
-		spec.QualAttrs = winNSDecls(g, x) // the same names and instants as extension attributes in a foreign namespace, signed by the IdP
+		spec.QualAttrs = withNS(winNSDecls(g, x), Pick(g, "", "xml", "xsi")) // the same names and instants as extension attributes in a foreign namespace, signed by the IdP
 	}
 	if g.Bool(0.3) {
 		// the IdP's own session ends hours later (SessionNotOnOrAfter): that is about the IdP's session, not about this assertion's windows
@@ -272,7 +272,7 @@ func genWindows(g *Rng, tier string) *Plan {
 			spec.NSDecls = winNSDecls(g, x)
 		}
 		if g.Bool(0.1) {
-			spec.QualAttrs = winNSDecls(g, x)
+			spec.QualAttrs = withNS(winNSDecls(g, x), Pick(g, "", "xml", "xsi"))
 		}
 		if g.Bool(0.3) {
 			for ai := range spec.Assertions {
